@@ -333,6 +333,12 @@ func finishCheck(o CheckOpts, w *World, reports []*OblReport, fnReports []FnRepo
 		}
 	}
 	for _, r := range reports {
+		if r.Result == "error" {
+			fmt.Fprintf(os.Stderr, "govc: internal error: every solver rejected the query of %s (ill-formed VC, a contract or generator defect): %s\n", r.Name, firstLines(r.res.Output, 3))
+			return 2
+		}
+	}
+	for _, r := range reports {
 		if r.Result == "disagree" {
 			fmt.Fprintf(os.Stderr, "govc: SOLVER DISAGREEMENT on %s: %v\n", r.Name, r.res.All)
 			return 2
@@ -376,6 +382,43 @@ func finishCheck(o CheckOpts, w *World, reports []*OblReport, fnReports []FnRepo
 		exit = 1
 	}
 	_ = undecided
+	// bounded stand-ins: exhaustive tests of the real function up to a stated
+	// bound (reported separately; never counted among the proved obligations)
+	var boundedReports []map[string]interface{}
+	for _, c := range w.propContracts(o.Prop) {
+		if c.Bounded == nil || (o.Only != "" && !strings.Contains(c.Key, o.Only)) {
+			continue
+		}
+		src, err := os.ReadFile(filepath.Join(o.Verif, "bounded", c.Bounded.File))
+		if err != nil {
+			fmt.Fprintf(os.Stderr, "govc: bounded harness missing: %v\n", err)
+			return 2
+		}
+		rel := strings.TrimPrefix(c.PkgPath, modulePath+"/")
+		bstart := time.Now()
+		out, failed := runGoTestW(w, o.Repo, rel, c.Bounded.Test, string(src))
+		ran := strings.Contains(out, "--- PASS: "+c.Bounded.Test) || strings.Contains(out, "--- FAIL: "+c.Bounded.Test)
+		br := map[string]interface{}{"function": c.PkgPath + "::" + c.Key, "bound": c.Bounded.Bound, "harness": c.Bounded.File, "test": c.Bounded.Test, "seconds": time.Since(bstart).Seconds(), "level": "bounded (not a proof)"}
+		switch {
+		case !failed && ran:
+			br["result"] = "passed"
+		case failed && ran:
+			br["result"] = "FAILED"
+			dir := filepath.Join(o.Verif, "replays", o.Prop)
+			os.MkdirAll(dir, 0o755)
+			path := filepath.Join(dir, fmt.Sprintf("bounded-%x.json", hashString(c.Key)))
+			rf := ReplayFile{Property: o.Prop, Obligation: "bounded:" + c.Key, Result: "test-failed", Backend: "go test", Clause: c.Bounded.Bound, GoTest: string(src), GoTestPkg: rel, GoTestName: c.Bounded.Test, ReplayOutput: firstLines(out, 60), Reproduced: true, Note: "bounded stand-in: the failing input is printed by the harness and was run against the real function"}
+			data, _ := json.MarshalIndent(rf, "", " ")
+			os.WriteFile(path, data, 0o644)
+			fmt.Printf("VIOLATION property=%s replay=%s obligation=bounded:%s result=test-failed\n", o.Prop, path, c.Key)
+			violations = append(violations, "bounded:"+c.Key)
+			exit = 1
+		default:
+			fmt.Fprintf(os.Stderr, "govc: bounded harness %s did not run (build error?):\n%s\n", c.Bounded.File, firstLines(out, 20))
+			return 2
+		}
+		boundedReports = append(boundedReports, br)
+	}
 	// evidence
 	var samples []interface{}
 	for i, r := range reports {
@@ -438,6 +481,7 @@ func finishCheck(o CheckOpts, w *World, reports []*OblReport, fnReports []FnRepo
 		"contracts_source_mirror":  w.mirrorUsed,
 		"assume_clauses_in_contract_files": assumeScan,
 		"vacuity_canaries":         countCanaries(reports),
+		"bounded_standins_not_counted_as_proved": boundedReports,
 		"explanation":              "every obligation is a verification condition generated from the SSA of the real function under the contract in zz_verif_contracts.go; discharged means unsat",
 	}
 	ev := Evidence{PropertyID: o.Prop, Tier: o.Tier, Seed: o.Seed, Level: "proof", Coverage: cov, WallS: time.Since(start).Seconds(), Violations: len(violations),
